@@ -75,9 +75,14 @@ def _prune(keep):
         ds = [os.path.join(BUILD, d) for d in os.listdir(BUILD) if os.path.isdir(os.path.join(BUILD, d))]
     except FileNotFoundError:
         return
-    ds.sort(key=lambda d: os.path.getmtime(d), reverse=True)
+    def mtime(d):           # another check may be building (renaming a temporary directory) or pruning at the same time
+        try:
+            return os.path.getmtime(d)
+        except OSError:
+            return time.time()
+    ds.sort(key=mtime, reverse=True)
     for d in ds[24:]:
-        if os.path.abspath(d) != os.path.abspath(keep) and time.time() - os.path.getmtime(d) > 7200:
+        if os.path.abspath(d) != os.path.abspath(keep) and time.time() - mtime(d) > 7200:
             shutil.rmtree(d, ignore_errors=True)
 
 
